@@ -61,6 +61,11 @@ func c17Zoo() []zooEntry {
 		{"aliased-pointers", c17Aliased()}, {"aliased-pointers-map", c17AliasedMap()},
 		{"shared-backing-slices", c17SharedBacking()}, {"shared-backing-slices-map", c17SharedBackingMap()}, {"shared-backing-structs", c17SharedStructs()},
 		{"print-twin-paths", c17Twins()}, {"print-twin-paths-map", c17TwinsMap()},
+		{"[]struct{}", []struct{}{{}, {}}}, {"[]struct{}-empty", []struct{}{}}, {"[]struct{}-nil", []struct{}(nil)}, {"[2]struct{}", [2]struct{}{}}, {"[][0]int", [][0]int{{}, {}}}, {"map[string]struct{}", map[string]struct{}{"a": {}, "b": {}}},
+		{"[]zero-size-struct-of-zero-size-fields", []struct {
+			A struct{}
+			B [0]string
+		}{{}, {}}},
 		{"empty-with-capacity", make([]c17Elem, 0, 4)}, {"empty-named-slice", c17Slice{}}, {"nil-named-map", c17Map(nil)},
 	}
 }
